@@ -653,9 +653,6 @@ theorem loadLine_uaOs (st : LoadState) {pad : Pad} (hp : WFPad pad) {rs : List (
   rw [htrim, uaOs_toList]
   simp [hpre, hcl, hparse, hhead, hnil]
 
-/-- what is written between the brackets of a section header -/
-def modName (m : Str) (d : Option Str) : Str := m ++ (match d with | some d => ':' :: d | none => [])
-
 theorem parseModule_header {m : Str} {d : Option Str} (hm : alpha1P m) (hd : ∀ x ∈ d, alpha1P x) :
     parseModule ('[' :: (modName m d ++ [']'])) = some ((m, d), []) := by
   cases d with
